@@ -162,19 +162,31 @@ def rule_items_appended(ctx, rule="C16-items", traits=("core::iter::traits::coll
     `return` / another `next()`, an append of that element lies in between.  (An element parked in a
     local and pushed only inside a closure that runs on one arm of a Result - e.g. only when a
     pre-sizing allocation succeeded - is lost on the other arm.)"""
-    from guards import edge_fact, describe
+    from guards import edge_fact, describe, empty_edge
     F = ctx.F
     APP = ("LeanString::push", "LeanString::push_str", "LeanString::try_push", "LeanString::try_push_str", "repr::Repr::push_str")
     n = 0
     for i in F.impls:
         if i["trait"] not in traits or i["self"] != "LeanString":
             continue
-        for nm, key in i["items"].items():
+        todo = [key for nm, key in i["items"].items()]
+        done = set()
+        while todo:
+            key = todo.pop()
+            if key in done:
+                continue
+            done.add(key)
             b = F.bodies.get(key)
             if b is None:
                 continue
             nexts = [bb for bb, t in b.calls() if callee_name(t) == "core::iter::traits::iterator::Iterator::next" or callee_name(t).endswith(" as core::iter::traits::iterator::Iterator>::next")]
             if not nexts:
+                # no loop of its own: the elements are handed to a sibling collecting impl
+                # (`buf.extend(iter)`), whose loop is the one to look at
+                for bb, t in b.calls():
+                    k = t.get("local_key")
+                    if k and k in F.bodies and (k.startswith("<LeanString as core::iter::traits::collect::Extend<") or k.startswith("<LeanString as core::iter::traits::collect::FromIterator<")):
+                        todo.append(k)
                 continue
             apps = set()
             for bb, t in b.calls():
@@ -207,6 +219,9 @@ def rule_items_appended(ctx, rule="C16-items", traits=("core::iter::traits::coll
                         elif x in nexts:
                             bad = "the next element is requested (line %s)" % tx.get("line")
                         for s2, lab in b.succ(x, unwind=False):
+                            # (an element that is an empty string has nothing to append)
+                            if isinstance(lab, tuple) and empty_edge(b, x, lab[1], lambda d: "item(" in d):
+                                continue
                             st.append(s2)
                 ctx.ob(rule, key, "element-appended:next#%d" % nexts.index(N), bad is None, line=b.line(N), how="every path from Some(x) passes an append of x before the next next() / return",
                        detail="an element taken from the iterator can be dropped without being appended: from the Some edge of next() (line %s), %s is reachable without an append of that element" % (b.line(N), bad))
